@@ -77,7 +77,7 @@ def run_glb(c):
     except BaseException as e:
         if isinstance(e, (KeyboardInterrupt, SystemExit, MemoryError)) or type(e).__name__ in ("CaseTimeout",):
             raise
-        return dict(nt=False, cls=["did-not-return", "did-not-return:" + type(e).__name__] + (["over-full-did-not-return"] if c.get("overfull") else []))
+        return dict(nt=False, cls=["did-not-return", "did-not-return:" + type(e).__name__] + (["over-full-did-not-return"] if c.get("overfull") else []) + (["stacked-did-not-return"] if c.get("stacked") else []))
     whole = (Fr(0), Fr(0), Fr(W), Fr(H))
     tol = Fr(size) / 10 ** 9
     cells = [(X.of_frame(a.rect), a) for a in alloc.allocations]
@@ -105,6 +105,12 @@ def run_glb(c):
         if not (math.isfinite(m.center.x) and math.isfinite(m.center.y)) or not (
                 -1e-6 * size <= m.center.x <= W + 1e-6 * size and -1e-6 * size <= m.center.y <= H + 1e-6 * size):
             raise Violation("%s: centre of %s is %s, outside the %r x %r die" % (what, m.name, m.center, W, H), "centre-outside")
+    # the netlist's flat list of rectangles is another way to the same shapes
+    flat = sorted((r.center.x, r.center.y, r.shape.w, r.shape.h) for r in die2.netlist.rectangles)
+    own = sorted((r.center.x, r.center.y, r.shape.w, r.shape.h) for m in die2.netlist.modules for r in m.rectangles)
+    if flat != own:
+        raise Violation("%s: Netlist.rectangles and the modules' own rectangles disagree in the returned netlist: %s vs %s" % (
+            what, [x for x in flat if x not in own][:3], [x for x in own if x not in flat][:3]), "rectangle-lists-disagree")
     moved = False
     split_fixed = False
     for m in die2.netlist.modules:
@@ -167,14 +173,17 @@ def run_glb(c):
 @st.composite
 def case_s(draw):
     scen = draw(_i(0, 5))  # 0: a die with fixed modules whose cells are refined between two optimisations (threshold 1)
-    empty = scen != 0 and draw(_i(0, 2)) == 0
+    # scenario 4: soft modules stacked on one centre on a grid of >= 9 cells (some cell is wholly covered by several modules)
+    empty = scen == 4 or (scen != 0 and draw(_i(0, 2)) == 0)
     dc = draw(D.die_case(max_regions=0 if empty else 3, max_fixed=2, min_side=4, max_side=10, allow_fixed=not empty,
                          force_fixed=scen in (0, 1), units=["1", "1", "0.5", "2", "0.1", "2.5", "10"]))
     dc["regions"] = [r[:4] + ["#"] for r in dc["regions"]]
     W, H = dc["W"], dc["H"]
     used = sum((r[2] - r[0]) * (r[3] - r[1]) for r in dc["regions"]) + sum((r[2] - r[0]) * (r[3] - r[1]) for rl in dc["fixed"] for r in rl)
     free = W * H - used
-    if empty and draw(st.booleans()):
+    if scen == 4:
+        ref = ["grid", draw(_i(3, 4)), draw(_i(3, 4))]
+    elif empty and draw(st.booleans()):
         ref = ["grid", draw(_i(1, 3)), draw(_i(2, 3))]
     else:
         ref = ["split", draw(st.sampled_from([1.5, 2, 3])), draw(st.sampled_from([1, 2, 4, 6, 9, 12]))]
@@ -183,7 +192,7 @@ def case_s(draw):
     budget = max(2, int(free * 0.6)) if scen != 5 else max(4, int(free * draw(st.sampled_from([1.1, 1.3, 2.0]))))
     mods = []
     for i in range(n):
-        kind = draw(st.sampled_from(["soft", "soft", "soft", "hard", "flip"])) if scen != 5 else "soft"
+        kind = draw(st.sampled_from(["soft", "soft", "soft", "hard", "flip"])) if scen not in (4, 5) else "soft"
         share = max(1, budget // n)
         if kind == "soft":
             mods.append(dict(name="M%d" % i, kind="soft", area=draw(_i(1, share)) if scen != 5 else share, c=[draw(_i(1, 2 * W - 1)), draw(_i(1, 2 * H - 1))]))
@@ -201,6 +210,16 @@ def case_s(draw):
                     h2 = draw(_i(1, h))
                     rects.append([x0 + w, y0, x0 + w + 1, y0 + h2])
             mods.append(dict(name="H%d" % i, kind=kind, rects=rects))
+    if scen == 4:
+        # a square die with g x g cells; two modules of 2 x 2 cells each on the same corner block, a small third one elsewhere
+        g = ref[1] = ref[2] = draw(st.sampled_from([3, 4, 4]))
+        cell = draw(st.sampled_from([1, 2]))
+        dc["W"] = dc["H"] = W = H = g * cell
+        cx = draw(st.sampled_from([2 * cell, 2 * (g - 1) * cell]))
+        cy = draw(st.sampled_from([2 * cell, 2 * (g - 1) * cell]))
+        mods = [dict(name="M0", kind="soft", area=4 * cell * cell, c=[cx, cy]), dict(name="M1", kind="soft", area=4 * cell * cell, c=[cx, cy])]
+        if draw(st.booleans()):
+            mods.append(dict(name="M2", kind="soft", area=cell * cell, c=[2 * W - cx, 2 * H - cy]))
     names = [m["name"] for m in mods] + ["F%d" % k for k in range(len(dc["fixed"]))]
     nets = []
     for _ in range(draw(_i(0, 4))):
@@ -211,7 +230,7 @@ def case_s(draw):
     thr, mit = draw(st.sampled_from([0.5, 0.7, 0.9, 0.95, 1.0])), draw(st.sampled_from([1, 1, 1, 2, 3]))
     if scen == 0:
         thr, mit = 1.0, max(mit, 2)
-    return dict(die=dc, refine=ref, modules=mods, nets=nets, overfull=scen == 5, threshold=thr, alpha=draw(st.sampled_from([0, 0.3, 0.7, 1])), max_iter=mit)
+    return dict(die=dc, refine=ref, modules=mods, nets=nets, overfull=scen == 5, stacked=scen == 4, threshold=thr, alpha=draw(st.sampled_from([0, 0.3, 0.7, 1])), max_iter=mit)
 
 
 class _FakeModel:
